@@ -47,18 +47,18 @@ import (
 // ---- server behaviours ----
 
 const (
-	verifC31OK           = "ok"             // correct service: 206 + tail if Range, else 200 + full; 416 if Range start >= size
-	verifC31IgnoreRange  = "ignore-range"   // 200 + full content whatever was asked
-	verifC31DropConn     = "drop-conn"      // connection closed before any response byte
-	verifC31Drop0        = "drop-0"         // correct headers (Content-Length), connection closed before the first body byte
-	verifC31DropMid      = "drop-mid"       // correct headers, half of the body, connection closed
-	verifC31IgnoreDrop   = "ignore-range+drop-mid" // 200 full-content headers, half of the content, connection closed
-	verifC31Short        = "short"          // clean response whose body (and Content-Length) is the first half of the right body
-	verifC31Corrupt      = "corrupt"        // right status/length, one body byte flipped
-	verifC31Err500       = "500"            // 500
-	verifC31Redirect     = "redirect"       // 302 to the second URL (the redirected request is the next request of the script)
-	verifC31Err416       = "416"            // 416
-	verifC31Lie206       = "206-full"       // 206 status (Content-Range 0-) but the body is the full content
+	verifC31OK          = "ok"                    // correct service: 206 + tail if Range, else 200 + full; 416 if Range start >= size
+	verifC31IgnoreRange = "ignore-range"          // 200 + full content whatever was asked
+	verifC31DropConn    = "drop-conn"             // connection closed before any response byte
+	verifC31Drop0       = "drop-0"                // correct headers (Content-Length), connection closed before the first body byte
+	verifC31DropMid     = "drop-mid"              // correct headers, half of the body, connection closed
+	verifC31IgnoreDrop  = "ignore-range+drop-mid" // 200 full-content headers, half of the content, connection closed
+	verifC31Short       = "short"                 // clean response whose body (and Content-Length) is the first half of the right body
+	verifC31Corrupt     = "corrupt"               // right status/length, one body byte flipped
+	verifC31Err500      = "500"                   // 500
+	verifC31Redirect    = "redirect"              // 302 to the second URL (the redirected request is the next request of the script)
+	verifC31Err416      = "416"                   // 416
+	verifC31Lie206      = "206-full"              // 206 status (Content-Range 0-) but the body is the full content
 )
 
 var verifC31Deviations = []string{verifC31IgnoreRange, verifC31DropConn, verifC31Drop0, verifC31DropMid, verifC31IgnoreDrop,
@@ -116,10 +116,10 @@ type verifC31Case struct {
 type verifC31Call struct {
 	Err        string   `json:"error"`
 	ErrClass   string   `json:"error_class"`
-	Target     string   `json:"target"`  // "absent" | "ok" | "wrong-digest:<hex of content>" | "not-regular"
-	Cache      []string `json:"cache"`   // entries: "<key-ok>" or "<key>:wrong-content"
+	Target     string   `json:"target"`      // "absent" | "ok" | "wrong-digest:<hex of content>" | "not-regular"
+	Cache      []string `json:"cache"`       // entries: "<key-ok>" or "<key>:wrong-content"
 	PartialLen int      `json:"partial_len"` // -1 = absent
-	Served     []string `json:"served"`  // behaviours consumed by this call, with the Range start that was asked
+	Served     []string `json:"served"`      // behaviours consumed by this call, with the Range start that was asked
 }
 
 type verifC31Result struct {
@@ -476,6 +476,16 @@ func verifC31Scripts(maxDev int) [][]string {
 	return out
 }
 
+func verifC31Devs(script []string) int {
+	n := 0
+	for _, b := range script {
+		if b != verifC31OK {
+			n++
+		}
+	}
+	return n
+}
+
 func (c verifC31Case) key(consumed []string) string {
 	// canonical: the script as far as the code under test consumed it (behaviour names without range offsets)
 	var names []string
@@ -490,10 +500,10 @@ func (c verifC31Case) key(consumed []string) string {
 }
 
 func TestC31(t *testing.T) {
-	r := eng.Start("C31", "fault_enumeration", 100*time.Second, 15*time.Minute)
+	r := eng.Start("C31", "fault_enumeration", 170*time.Second, 15*time.Minute)
 	r.Assume("the HTTP server is a model (httptest server scripted per request); its 12 behaviours are the fault alphabet",
 		"content is 64 distinct bytes with declared size and SHA3-384; larger bodies (multi-chunk copies) are not covered",
-		"retry strategy replaced by a sleep-free LimitCount(n) (n = 7 as in production, and 2 to reach exhaustion)",
+		"retry strategy replaced by a sleep-free LimitCount(n) (n = 7 as in production; n = 2, to reach exhaustion, for scripts with at most 2 deviations)",
 		"transfer-speed monitor, rate limiting, deltas, authentication refresh and context cancellation are not exercised",
 		"SHA3-384 collisions are ignored")
 	maxDev := r.Pick(2, 3)
@@ -520,7 +530,13 @@ func TestC31(t *testing.T) {
 
 	scripts := verifC31Scripts(maxDev)
 	retries := []int{7, 2}
-	total := len(scripts) * len(verifC31Partials) * 2 * len(retries)
+	total := 0
+	for _, sc := range scripts {
+		total += len(verifC31Partials) * 2
+		if verifC31Devs(sc) <= 2 {
+			total += len(verifC31Partials) * 2
+		}
+	}
 	r.Info("bounds", map[string]int{"max_deviations": maxDev, "scripts": len(scripts), "deviating_behaviours": len(verifC31Deviations),
 		"partial_states": len(verifC31Partials), "leave_partial_values": 2, "retry_limits": len(retries), "cases": total, "content_bytes": verifC31Size})
 
@@ -540,12 +556,17 @@ func TestC31(t *testing.T) {
 	idx := 0
 	capped := false
 	var last interface{}
+	sampled := 0
 	done := 0
 outer:
 	for _, script := range scripts {
 		for _, partial := range verifC31Partials {
 			for _, leave := range []bool{false, true} {
 				for _, nretry := range retries {
+					if nretry != 7 && verifC31Devs(script) > 2 {
+						// the short retry limit is there to reach retry exhaustion; two deviations do that
+						continue
+					}
 					i := idx
 					idx++
 					if !r.Mine(i) {
@@ -599,14 +620,15 @@ outer:
 						}
 					}
 					last = map[string]interface{}{"case": c, "result": res}
-					if r.WantSample() && res.Deviations >= 2 && len(res.Calls) > 1 {
-						r.Sample(map[string]interface{}{"case": c, "result": res})
+					if sampled < 2 && res.Deviations >= 2 && len(res.Calls) > 1 {
+						sampled++
+						r.Sample(last)
 					}
 				}
 			}
 		}
 	}
-	if r.WantSample() && last != nil {
+	if sampled == 0 && last != nil {
 		r.Sample(last)
 	}
 	if capped {
